@@ -278,6 +278,7 @@ func TestC04(t *testing.T) {
 		cfg := model.DefaultCfg(mode)
 		cfg.PPost, cfg.POpts = 0, 0
 		cfg.PAbsent, cfg.PVary, cfg.PJunk, cfg.PDefault, cfg.PReq = 0.4, 0.3, 0, 0.3, 0.5
+		cfg.PPre = 0.1 // Preprocess wrappers: what the function returns (a pointer to 0 is a present 0, a nil pointer is nothing) is what the absence rules see
 		cfg.MaxDepth = h.N(3, 5)
 		hh.Sub(h, "random-"+mode, h.N(10000, 60000), func(rt *rapid.T) model.Case { return model.GenCase(rt, cfg) }, func(c model.Case) hh.Verdict {
 			_, bad, skip := conform(c, 2, true, true, true)
